@@ -55,7 +55,7 @@ func bs(args ...string) [][]byte {
 // small command menus per data type (each key is used with one type)
 func menuStrings() [][][]byte {
 	return [][][]byte{bs("SET", "s1", "v"), bs("SET", "s1", "a\r\n+OK"), bs("GET", "s1"), bs("SETNX", "s1", "w"), bs("GETSET", "s1", "x"), bs("APPEND", "s1", "yz"),
-		bs("STRLEN", "s1"), bs("GETRANGE", "s1", "0", "-1"), bs("GETRANGE", "s1", "1", "5"), bs("MSET", "s1", "1", "s2", "2"), bs("MSETNX", "s1", "3", "s2", "4"), bs("MGET", "s1", "s2", "s3"),
+		bs("STRLEN", "s1"), bs("GETRANGE", "s1", "0", "-1"), bs("GETRANGE", "s1", "1", "5"), bs("GETRANGE", "s1", "-9223372036854775808", "9223372036854775807"), bs("GETRANGE", "s1", "9223372036854775807", "-9223372036854775808"), bs("INCRBY", "s1", "9223372036854775807"), bs("DECRBY", "s1", "-9223372036854775808"), bs("MSET", "s1", "1", "s2", "2"), bs("MSETNX", "s1", "3", "s2", "4"), bs("MGET", "s1", "s2", "s3"),
 		bs("INCR", "s1"), bs("DECRBY", "s1", "5"), bs("SET", "s1", "9223372036854775807"), bs("DEL", "s1"), bs("EXISTS", "s1", "s1", "s2"), bs("RENAME", "s1", "s1"), bs("RENAME", "s1", "s2"),
 		bs("RENAMENX", "s1", "s2"), bs("RENAMENX", "s1", "s1"), bs("TYPE", "s1"), bs("KEYS", "s*"), bs("KEYS", "s?"), bs("SET", "s2", ""), bs("GET", "s2"),
 		// empty values and a key only ever touched through derived commands
@@ -71,8 +71,8 @@ func menuHashes() [][][]byte {
 }
 func menuLists() [][][]byte {
 	return [][][]byte{bs("RPUSH", "l1", "a"), bs("RPUSH", "l1", "b", "c"), bs("LPUSH", "l1", "x", "y"), bs("LPUSHX", "l1", "p"), bs("RPUSHX", "l2", "q"), bs("LPOP", "l1"), bs("RPOP", "l1"),
-		bs("LPOP", "l1", "2"), bs("RPOP", "l1", "3"), bs("LRANGE", "l1", "0", "-1"), bs("LRANGE", "l1", "1", "1"), bs("LRANGE", "l1", "-2", "10"), bs("LRANGE", "l1", "3", "1"),
-		bs("LRANGE", "l1", "-100", "100"), bs("LINDEX", "l1", "0"), bs("LINDEX", "l1", "-1"), bs("LINDEX", "l1", "7"), bs("LLEN", "l1"), bs("LLEN", "l2"), bs("EXISTS", "l1", "l2"), bs("TYPE", "l1"),
+		bs("LPOP", "l1", "2"), bs("RPOP", "l1", "3"), bs("LPOP", "l1", "9223372036854775807"), bs("RPOP", "l1", "4000000000000"), bs("LRANGE", "l1", "0", "-1"), bs("LRANGE", "l1", "1", "1"), bs("LRANGE", "l1", "-2", "10"), bs("LRANGE", "l1", "3", "1"),
+		bs("LRANGE", "l1", "-100", "100"), bs("LRANGE", "l1", "-9223372036854775808", "9223372036854775807"), bs("LRANGE", "l1", "9223372036854775807", "-9223372036854775808"), bs("LINDEX", "l1", "9223372036854775807"), bs("LINDEX", "l1", "-9223372036854775808"), bs("LINDEX", "l1", "0"), bs("LINDEX", "l1", "-1"), bs("LINDEX", "l1", "7"), bs("LLEN", "l1"), bs("LLEN", "l2"), bs("EXISTS", "l1", "l2"), bs("TYPE", "l1"),
 		bs("DEL", "l1"), bs("RENAME", "l1", "l2"), bs("LRANGE", "l2", "0", "-1"), bs("KEYS", "l*"),
 		// the renamed list is used further, drained, renamed back
 		bs("LPOP", "l2"), bs("RPOP", "l2"), bs("LPOP", "l2", "5"), bs("RPUSH", "l2", "z"), bs("RENAME", "l2", "l1"), bs("DEL", "l2"), bs("TYPE", "l2")}
@@ -85,7 +85,7 @@ func menuSets() [][][]byte {
 func menuZSets() [][][]byte {
 	return [][][]byte{bs("ZADD", "z1", "1", "a"), bs("ZADD", "z1", "2", "b", "1", "c"), bs("ZADD", "z1", "2", "a"), bs("ZADD", "z1", "1", "b", "0.5", "d"), bs("ZADD", "z1", "-1", "e", "1.5", "a"),
 		bs("ZREM", "z1", "a"), bs("ZREM", "z1", "a", "b", "zz", "a"), bs("ZSCORE", "z1", "a"), bs("ZSCORE", "z1", "zz"), bs("ZSCORE", "z2", "a"), bs("ZINCRBY", "z1", "2", "a"), bs("ZINCRBY", "z1", "-0.5", "n"),
-		bs("ZCARD", "z1"), bs("ZCARD", "z2"), bs("ZRANGE", "z1", "0", "-1"), bs("ZRANGE", "z1", "0", "-1", "WITHSCORES"), bs("ZRANGE", "z1", "1", "2"), bs("ZRANGE", "z1", "-2", "-1"), bs("ZRANGE", "z1", "2", "1"),
+		bs("ZCARD", "z1"), bs("ZCARD", "z2"), bs("ZRANGE", "z1", "0", "-1"), bs("ZRANGE", "z1", "0", "-1", "WITHSCORES"), bs("ZRANGE", "z1", "1", "2"), bs("ZRANGE", "z1", "-2", "-1"), bs("ZRANGE", "z1", "2", "1"), bs("ZRANGE", "z1", "-9223372036854775808", "9223372036854775807"), bs("ZREVRANGE", "z1", "-9223372036854775808", "9223372036854775807", "WITHSCORES"), bs("ZRANGEBYSCORE", "z1", "-inf", "+inf", "LIMIT", "9223372036854775807", "1"), bs("ZRANGEBYSCORE", "z1", "-inf", "+inf", "LIMIT", "1", "9223372036854775807"), bs("ZREVRANGEBYSCORE", "z1", "+inf", "-inf", "LIMIT", "1", "9223372036854775807"),
 		bs("ZRANGE", "z1", "0", "-1", "REV"), bs("ZRANGE", "z1", "0", "0", "REV"), bs("ZRANGE", "z1", "1", "2", "rev", "WITHSCORES"), bs("ZRANGE", "z1", "-2", "-1", "REV"),
 		bs("ZREVRANGE", "z1", "0", "0"), bs("ZREVRANGE", "z1", "0", "-1", "WITHSCORES"), bs("ZREVRANGE", "z1", "1", "5"), bs("ZRANGEBYSCORE", "z1", "-inf", "+inf"), bs("ZRANGEBYSCORE", "z1", "1", "2"),
 		bs("ZRANGEBYSCORE", "z1", "(1", "2"), bs("ZRANGEBYSCORE", "z1", "1", "(2", "WITHSCORES"), bs("ZRANGEBYSCORE", "z1", "-inf", "+inf", "LIMIT", "1", "1"), bs("ZRANGEBYSCORE", "z1", "0", "5", "LIMIT", "5", "2"),
